@@ -1,6 +1,290 @@
-//! Decision tables → `Gen/Tables.lean`.
-use crate::Ctx;
+//! Decision tables and small control-flow bodies → `Gen/Tables.lean`.
+//!
+//! Every item is matched against the exact syntactic shape the translator understands; anything
+//! else is refused.
 
-pub fn gen(_ctx: &mut Ctx) -> Result<String, String> {
-    Ok("namespace AmVerif.Gen\nend AmVerif.Gen\n".into())
+use crate::{find::find_fn, Ctx};
+use quote::ToTokens;
+use syn::{Expr, Pat, Stmt};
+
+fn ts(t: &dyn ToTokens) -> String { t.to_token_stream().to_string() }
+fn squash(t: &dyn ToTokens) -> String { ts(t).replace(' ', "") }
+
+// ------------------------------------------------------------------ ErrorKind::or
+
+fn variant_lean(name: &str) -> Result<&'static str, String> {
+    match name {
+        "NoDefaultValue" => Ok("noDefault"),
+        "Io" => Ok("io"),
+        "Conversion" => Ok("conv"),
+        _ => Err(format!("ErrorKind::or: unknown variant `{name}`")),
+    }
+}
+
+/// Returns (lean pattern, bindings as `let` lines)
+fn or_pat(p: &Pat, scrut: &str, binds: &mut Vec<String>) -> Result<String, String> {
+    match p {
+        Pat::Wild(_) => Ok("_".into()),
+        Pat::Ident(i) => {
+            let name = i.ident.to_string();
+            if let Some((_, sub)) = &i.subpat {
+                binds.push(format!("let {name} := {scrut}"));
+                let mut inner = vec![];
+                let r = or_pat(sub, scrut, &mut inner)?;
+                if !inner.is_empty() { return Err("ErrorKind::or: nested binding under `@`".into()); }
+                Ok(r)
+            } else if name.chars().next().map_or(false, |c| c.is_uppercase()) {
+                Ok(format!(".{}", variant_lean(&name)?))
+            } else {
+                binds.push(format!("let {name} := {scrut}"));
+                Ok("_".into())
+            }
+        }
+        Pat::Path(pp) => Ok(format!(".{}", variant_lean(&pp.path.segments.last().unwrap().ident.to_string())?)),
+        Pat::TupleStruct(t) => {
+            let v = variant_lean(&t.path.segments.last().unwrap().ident.to_string())?;
+            if t.elems.len() != 1 { return Err("ErrorKind::or: variant arity".into()); }
+            match &t.elems[0] {
+                Pat::Wild(_) => Ok(format!(".{v} _")),
+                Pat::Ident(i) if i.subpat.is_none() => Ok(format!(".{v} {}", i.ident)),
+                other => Err(format!("ErrorKind::or: unsupported sub-pattern `{}`", ts(other))),
+            }
+        }
+        other => Err(format!("ErrorKind::or: unsupported pattern `{}`", ts(other))),
+    }
+}
+
+fn gen_error_or(ctx: &mut Ctx) -> Result<String, String> {
+    let file = ctx.file("src/error.rs")?.clone();
+    let f = find_fn(&file, "ErrorKind", "or")?;
+    let params: Vec<String> = f.sig.inputs.iter().map(|a| match a {
+        syn::FnArg::Receiver(_) => "self_".to_string(),
+        syn::FnArg::Typed(t) => ts(&t.pat),
+    }).collect();
+    if params.len() != 2 { return Err("ErrorKind::or: expected (self, other)".into()); }
+    // body: [use ...;] match (self, other) { arms }
+    let m = f.block.stmts.iter().filter_map(|s| match s { Stmt::Expr(Expr::Match(m), _) => Some(m), _ => None }).next()
+        .ok_or("ErrorKind::or: no match expression")?;
+    for s in &f.block.stmts {
+        match s { Stmt::Item(syn::Item::Use(_)) | Stmt::Expr(Expr::Match(_), _) => {}, other => return Err(format!("ErrorKind::or: unexpected statement `{}`", ts(other))) }
+    }
+    if squash(&m.expr) != format!("(self,{})", params[1]) { return Err(format!("ErrorKind::or: scrutinee is `{}`", ts(&m.expr))); }
+    let mut out = String::new();
+    let n = m.arms.len();
+    let mut last_irrefutable = false;
+    for (k, arm) in m.arms.iter().enumerate() {
+        let (p1, p2) = match &arm.pat { Pat::Tuple(t) if t.elems.len() == 2 => (&t.elems[0], &t.elems[1]), other => return Err(format!("ErrorKind::or: arm pattern `{}`", ts(other))) };
+        let mut binds = vec![];
+        let l1 = or_pat(p1, "self_", &mut binds)?;
+        let l2 = or_pat(p2, &params[1], &mut binds)?;
+        let body = match &*arm.body { Expr::Path(p) if p.path.segments.len() == 1 => p.path.segments[0].ident.to_string(), other => return Err(format!("ErrorKind::or: arm body `{}`", ts(other))) };
+        let guard = match &arm.guard {
+            None => None,
+            Some((_, g)) => {
+                // `<x>.kind() == io::ErrorKind::NotFound`
+                let s = squash(g);
+                let pre = s.strip_suffix(".kind()==io::ErrorKind::NotFound").ok_or(format!("ErrorKind::or: unsupported guard `{}`", ts(g)))?;
+                Some(format!("{pre}.notFound"))
+            }
+        };
+        last_irrefutable = l1 == "_" && l2 == "_" && guard.is_none();
+        out.push_str(&format!("def errorOr_arm{k} (self_ {} : EK) : Option EK :=\n  match self_, {} with\n  | {l1}, {l2} =>\n", params[1], params[1]));
+        for b in &binds { out.push_str(&format!("    {b}\n")); }
+        match guard {
+            Some(g) => out.push_str(&format!("    if {g} then some {body} else none\n")),
+            None => out.push_str(&format!("    some {body}\n")),
+        }
+        if !(l1 == "_" && l2 == "_") { out.push_str("  | _, _ => none\n"); }
+        out.push('\n');
+        let _ = n;
+    }
+    if !last_irrefutable { return Err("ErrorKind::or: last arm is not irrefutable".into()); }
+    out.push_str(&format!("/-- `ErrorKind::or`: first matching arm, in source order. -/\ndef errorOr (self_ {} : EK) : EK :=\n", params[1]));
+    for k in 0..n - 1 {
+        out.push_str(&format!("{}match errorOr_arm{k} self_ {} with\n{}| some r => r\n{}| none =>\n", "  ".repeat(k + 1), params[1], "  ".repeat(k + 1), "  ".repeat(k + 1)));
+    }
+    out.push_str(&format!("{}(errorOr_arm{} self_ {}).getD self_\n\n", "  ".repeat(n), n - 1, params[1]));
+    Ok(out)
+}
+
+// ------------------------------------------------------------------ load_from_source
+
+fn gen_load_from_source(ctx: &mut Ctx) -> Result<String, String> {
+    let file = ctx.file("src/asset.rs")?.clone();
+    let f = find_fn(&file, "", "load_from_source")?;
+    let st = &f.block.stmts;
+    let bad = |what: &str| Err::<String, String>(format!("load_from_source: unexpected shape ({what})"));
+    if st.len() != 4 { return bad("statement count"); }
+    // 1. let load_with_ext = |ext| -> Result<T, ErrorKind> { let asset = source.read(id, ext)?.with_cow(|content| T::Loader::load(content, ext))?; Ok(asset) };
+    let closure = match &st[0] { Stmt::Local(l) if squash(&l.pat) == "load_with_ext" => match l.init.as_ref().map(|i| &*i.expr) { Some(Expr::Closure(c)) => c, _ => return bad("load_with_ext is not a closure") }, _ => return bad("first statement") };
+    let cb = match &*closure.body { Expr::Block(b) => &b.block.stmts, _ => return bad("closure body") };
+    if cb.len() != 2 { return bad("closure statement count"); }
+    let chain = match &cb[0] { Stmt::Local(l) if squash(&l.pat) == "asset" => squash(&l.init.as_ref().unwrap().expr), _ => return bad("closure let") };
+    if chain != "source.read(id,ext)?.with_cow(|content|T::Loader::load(content,ext))?" { return bad(&format!("read/decode chain is `{chain}`")); }
+    if squash(&cb[1]) != "Ok(asset)" { return bad("closure result"); }
+    // 2. let mut error = ErrorKind::NoDefaultValue;
+    let init = match &st[1] { Stmt::Local(l) if squash(&l.pat) == "muterror" => squash(&l.init.as_ref().unwrap().expr), _ => return bad("error initialiser") };
+    let init_lean = match init.as_str() { "ErrorKind::NoDefaultValue" => ".noDefault", _ => return bad("initial error value") };
+    // 3. for ext in T::EXTENSIONS { match load_with_ext(ext) { Err(err) => error = err.or(error), Ok(asset) => return Ok(asset), } }
+    let fl = match &st[2] { Stmt::Expr(Expr::ForLoop(fl), _) => fl, _ => return bad("for loop") };
+    if squash(&fl.pat) != "ext" || squash(&fl.expr) != "T::EXTENSIONS" { return bad("loop header"); }
+    if fl.body.stmts.len() != 1 { return bad("loop body"); }
+    let m = match &fl.body.stmts[0] { Stmt::Expr(Expr::Match(m), _) => m, _ => return bad("loop match") };
+    if squash(&m.expr) != "load_with_ext(ext)" { return bad("loop scrutinee"); }
+    let mut fold = None;
+    let mut ok_returns = false;
+    for arm in &m.arms {
+        match squash(&arm.pat).as_str() {
+            "Err(err)" => {
+                fold = Some(match squash(&arm.body).as_str() {
+                    "error=err.or(error)" => "errorOr err error",
+                    "error=error.or(err)" => "errorOr error err",
+                    other => return bad(&format!("error fold `{other}`")),
+                });
+            }
+            "Ok(asset)" => { if squash(&arm.body) != "returnOk(asset)" { return bad("Ok arm"); } ok_returns = true; }
+            other => return bad(&format!("arm `{other}`")),
+        }
+    }
+    let fold = fold.ok_or("load_from_source: no Err arm")?;
+    if !ok_returns { return bad("no Ok arm"); }
+    // 4. T::default_value(id, error.into())
+    if squash(&st[3]) != "T::default_value(id,error.into())" { return bad("final default_value call"); }
+    Ok(format!(
+"/-- The closure `load_with_ext` in continuation-passing style (`readK` performs the read): read,
+then decode; `?` turns an I/O error into `Io`, a loader error into `Conversion`. -/
+def loadWithExtK {{α ρ : Type}} (readK : String → (Except IoErr (List UInt8) → ρ) → ρ)
+    (decode : List UInt8 → String → Except String α) (ext : String) (k : Except EK α → ρ) : ρ :=
+  readK ext fun r =>
+    match r with
+    | .error e => k (.error (.io e))
+    | .ok content =>
+      match decode content ext with
+      | .error t => k (.error (.conv t))
+      | .ok asset => k (.ok asset)
+
+def loadInitError : EK := {init_lean}
+
+/-- The `for ext in T::EXTENSIONS` loop: the first `Ok` returns (later extensions are not even
+read); errors are folded exactly as the source says. -/
+def loadFoldK {{α ρ : Type}} (loadWithExt : String → (Except EK α → ρ) → ρ) :
+    EK → List String → (Except EK α → ρ) → ρ
+  | error, [], k => k (.error error)
+  | error, ext :: rest, k =>
+    loadWithExt ext fun r =>
+      match r with
+      | .error err => loadFoldK loadWithExt ({fold}) rest k
+      | .ok asset => k (.ok asset)
+
+/-- `load_from_source`: the loop, then `T::default_value(id, error)`. -/
+def loadFromSourceK {{α ρ : Type}} (readK : String → (Except IoErr (List UInt8) → ρ) → ρ)
+    (decode : List UInt8 → String → Except String α) (exts : List String)
+    (defaultValue : EK → Except EK α) (k : Except EK α → ρ) : ρ :=
+  loadFoldK (loadWithExtK readK decode) loadInitError exts fun r =>
+    match r with
+    | .ok asset => k (.ok asset)
+    | .error error => k (defaultValue error)
+
+"))
+}
+
+// ------------------------------------------------------------------ boolean conditions
+
+/// `T::HOT_RELOADED && _mutable()` style conditions → Lean Bool expression over named atoms.
+fn bool_expr(e: &Expr, atoms: &[(&str, &str)]) -> Result<String, String> {
+    match e {
+        Expr::Paren(p) => bool_expr(&p.expr, atoms),
+        Expr::Binary(b) => {
+            let op = match b.op { syn::BinOp::And(_) => "&&", syn::BinOp::Or(_) => "||", _ => return Err(format!("unsupported operator in condition `{}`", ts(e))) };
+            Ok(format!("({} {op} {})", bool_expr(&b.left, atoms)?, bool_expr(&b.right, atoms)?))
+        }
+        Expr::Unary(u) if matches!(u.op, syn::UnOp::Not(_)) => Ok(format!("(!{})", bool_expr(&u.expr, atoms)?)),
+        other => {
+            let s = squash(other);
+            atoms.iter().find(|(src, _)| *src == s).map(|(_, l)| l.to_string()).ok_or(format!("unknown atom `{s}` in condition"))
+        }
+    }
+}
+
+fn gen_conditions(ctx: &mut Ctx) -> Result<String, String> {
+    let mut out = String::new();
+    // CacheEntry::new: `if T::HOT_RELOADED && _mutable() { new_dynamic } else { new_static }`
+    let entry = ctx.file("src/entry.rs")?.clone();
+    let f = find_fn(&entry, "CacheEntry", "new")?;
+    let mut cond = None;
+    for s in &f.block.stmts {
+        if let Stmt::Local(l) = s {
+            if let Some(init) = &l.init {
+                if let Expr::If(i) = &*init.expr {
+                    let then_dyn = squash(&i.then_branch).contains("new_dynamic");
+                    let else_static = i.else_branch.as_ref().map_or(false, |(_, e)| squash(e).contains("new_static"));
+                    if then_dyn && else_static {
+                        cond = Some(bool_expr(&i.cond, &[("T::HOT_RELOADED", "typeHot"), ("_mutable()", "mutable_")])?);
+                    } else if squash(&i.then_branch).contains("new_static") && i.else_branch.as_ref().map_or(false, |(_, e)| squash(e).contains("new_dynamic")) {
+                        cond = Some(format!("(!{})", bool_expr(&i.cond, &[("T::HOT_RELOADED", "typeHot"), ("_mutable()", "mutable_")])?));
+                    }
+                }
+            }
+        }
+    }
+    let cond = cond.ok_or("CacheEntry::new: dynamic/static choice not found")?;
+    out.push_str(&format!("/-- `CacheEntry::new`: is the new entry dynamic (lock + reload id)? -/\ndef entryDynamic (typeHot mutable_ : Bool) : Bool := {cond}\n\n"));
+
+    // the `_mutable` closures at the two creation sites
+    let key = ctx.file("src/key.rs")?.clone();
+    let le = crate::find::find_nested_fn(&key, "Inner", "of_asset", "load_entry")?;
+    let src = squash(le.block);
+    let m1 = if src.contains("CacheEntry::new(asset,id,||cache.is_hot_reloaded())") { "hasReloader" } else { return Err("key.rs load_entry: CacheEntry::new call not recognised".into()) };
+    let wraps = src.contains("Err(err)=>Err(Error::new(id,err))");
+    if !wraps { return Err("key.rs load_entry: error arm is not `Err(Error::new(id, err))`".into()); }
+    let any = ctx.file("src/anycache.rs")?.clone();
+    let aa = find_fn(&any, "CacheExt", "add_any")?;
+    let m2 = if squash(aa.block).contains("CacheEntry::new(asset,id,||self._has_reloader())") { "hasReloader" } else { return Err("add_any: CacheEntry::new call not recognised".into()) };
+    let ihr = find_fn(&any, "AnyCache", "is_hot_reloaded")?;
+    if squash(ihr.block) != "{self.cache._has_reloader()}" { return Err("AnyCache::is_hot_reloaded: unexpected body".into()); }
+    out.push_str(&format!("/-- entries created by a load: `CacheEntry::new(asset, id, || cache.is_hot_reloaded())` -/\ndef loadedEntryDynamic (typeHot hasReloader : Bool) : Bool := entryDynamic typeHot {m1}\n\n"));
+    out.push_str(&format!("/-- entries created by `get_or_insert` (`add_any`): `CacheEntry::new(asset, id, || self._has_reloader())` -/\ndef insertedEntryDynamic (typeHot hasReloader : Bool) : Bool := entryDynamic typeHot {m2}\n\n"));
+    out.push_str("/-- a failed `Compound::load` is reported as `Error::new(own id, reason)` -/\ndef loadErrorWrapsOwnId : Bool := true\n\n");
+
+    // get_cached_entry_inner / load_owned_entry / load_and_record: `if typ.is_hot_reloaded() { if let Some(reloader) = … {`
+    let nested_cond = |owner: &str, name: &str, file: &syn::File| -> Result<(), String> {
+        let f = find_fn(file, owner, name)?;
+        for s in &f.block.stmts {
+            if let Stmt::Expr(Expr::If(i), _) = s {
+                if squash(&i.cond) == "typ.is_hot_reloaded()" {
+                    if let Some(Stmt::Expr(Expr::If(j), _)) = i.then_branch.stmts.first() {
+                        let c = squash(&j.cond);
+                        if c == "letSome(reloader)=self.reloader()" || c == "letSome(reloader)=cache.reloader()" { return Ok(()); }
+                    }
+                }
+            }
+        }
+        Err(format!("{owner}::{name}: `if typ.is_hot_reloaded() {{ if let Some(reloader) = … ` not found"))
+    };
+    nested_cond("Cache for T", "get_cached_entry_inner", &any)?;
+    nested_cond("Cache for T", "load_owned_entry", &any)?;
+    let asset = ctx.file("src/asset.rs")?.clone();
+    nested_cond("", "load_and_record", &asset)?;
+    out.push_str("/-- look-ups (`get_cached_entry_inner`, `load_owned_entry`) record an asset dependency, and\n`load_and_record` opens a recording frame, iff the type is hot-reloaded and the cache has a reloader -/\ndef recordsAsset (typeHot hasReloader : Bool) : Bool := typeHot && hasReloader\n\n");
+    // load_and_record registers only on success
+    let lar = squash(find_fn(&asset, "", "load_and_record")?.block);
+    let reg_ok = lar.contains("ifentry.is_ok(){reloader.add_asset(id,deps,typ);}returnentry;");
+    if !reg_ok { return Err("load_and_record: `if entry.is_ok() { reloader.add_asset(..) } return entry;` not found".into()); }
+    out.push_str("/-- `load_and_record` tells the reloader about an asset only when its load succeeded -/\ndef registersOnlyOnOk : Bool := true\n\n");
+    // Cache::read / read_dir: record before reading, iff reloader
+    let rd = squash(find_fn(&any, "Cache for T", "read")?.block);
+    if rd != "{#[cfg(feature=\"hot-reloading\")]ifletSome(reloader)=self.reloader(){records::add_file_record(reloader,id,ext);}self.get_source().read(id,ext)}" { return Err(format!("Cache::read: unexpected body `{rd}`")); }
+    let rdd = squash(find_fn(&any, "Cache for T", "read_dir")?.block);
+    if rdd != "{#[cfg(feature=\"hot-reloading\")]ifletSome(reloader)=self.reloader(){records::add_dir_record(reloader,id);}self.get_source().read_dir(id,f)}" { return Err(format!("Cache::read_dir: unexpected body `{rdd}`")); }
+    out.push_str("/-- `Cache::read` / `read_dir` record the entry (before reading, whatever the result) iff the cache has a reloader -/\ndef recordsRead (hasReloader : Bool) : Bool := hasReloader\n\n");
+    Ok(out)
+}
+
+pub fn gen(ctx: &mut Ctx) -> Result<String, String> {
+    let mut out = String::from("import AmVerif.Model.Core\n\nnamespace AmVerif.Gen\nopen AmVerif.Model\n\n/-- `error::ErrorKind` -/\ninductive EK\n  | noDefault\n  | io (e : IoErr)\n  | conv (tag : String)\n  deriving DecidableEq, Repr\n\n");
+    out.push_str(&gen_error_or(ctx)?);
+    out.push_str(&gen_load_from_source(ctx)?);
+    out.push_str(&gen_conditions(ctx)?);
+    out.push_str("end AmVerif.Gen\n");
+    Ok(out)
 }
